@@ -540,7 +540,16 @@ fn dup_doc(rng: &mut Rng) -> GNode {
     let n = 1 + rng.below(5);
     let mut entries = Vec::new();
     for _ in 0..n {
-        let v = match rng.below(4) { 0 => GNode::Seq { anchor: None, tag: None, items: vec![sc("1"), GNode::Map { anchor: None, tag: None, entries: vec![(sc("n"), sc("2"))], flow: true }], flow: true }, 1 => GNode::Map { anchor: None, tag: None, entries: vec![(sc("i"), sc("j"))], flow: rng.chance(1, 2) }, _ => sc(&rng.below(9).to_string()) };
+        // values that a schema-less read (`deserialize_any`) REJECTS — `!!binary` that is not base64 / not UTF-8, a quoted `!!int`,
+        // an invalid merge inside — also nested: FirstWins must discard them unread when the key is a repeat
+        let poison = |rng: &mut Rng| -> GNode { match rng.below(4) {
+            0 => GNode::Scalar { text: "???".into(), style: 0, anchor: None, tag: Some("!!binary".into()) },
+            1 => GNode::Scalar { text: "//4=".into(), style: 0, anchor: None, tag: Some("!!binary".into()) },
+            2 => GNode::Scalar { text: "2".into(), style: 2, anchor: None, tag: Some("!!int".into()) },
+            _ => GNode::Map { anchor: None, tag: None, entries: vec![(sc("<<"), sc("3"))], flow: true } } };
+        let v = match rng.below(6) { 0 => GNode::Seq { anchor: None, tag: None, items: vec![sc("1"), GNode::Map { anchor: None, tag: None, entries: vec![(sc("n"), sc("2"))], flow: true }], flow: true }, 1 => GNode::Map { anchor: None, tag: None, entries: vec![(sc("i"), sc("j"))], flow: rng.chance(1, 2) },
+            2 => poison(rng), 3 if rng.chance(1, 2) => GNode::Seq { anchor: None, tag: None, items: vec![sc("1"), GNode::Map { anchor: None, tag: None, entries: vec![(sc("n"), poison(rng))], flow: true }], flow: true },
+            _ => sc(&rng.below(9).to_string()) };
         entries.push((mk_key(rng), v));
     }
     let flow = rng.chance(1, 3);
